@@ -312,6 +312,8 @@ export function f4() {
   out.push(Tpl(""));
   out.push(Tpl("a.b"), Tpl("a(b"), Tpl("a|b"), Tpl("^a$"), Tpl("a\\b"), Tpl("a/b"), Tpl("[a]"), Tpl("a+"), Tpl("a?"), Tpl("a*"));
   out.push(Tpl(H("number"), "px"), Tpl("#", H("string")), Tpl(H("string"), "@", H("string"), ".com"));
+  // constant text that needs escaping inside back-ticks (when printed back as TypeScript) or inside a regular expression
+  out.push(Tpl("a`b"), Tpl("a${b"), Tpl("$", H("number")), Tpl("a`", H("string"), "`z"), Tpl("}{", H("boolean")), Tpl("a\nb"), Tpl("tab\t", H("number")), Tpl("a\\", H("string")), Tpl(H("number"), "${x}"), Tpl("q\"q", H("string")));
   const sf = ["f1", "f2", "f3"];
   for (const a of sf) out.push(FmtS(a));
   for (const a of sf) for (const b of sf) if (a !== b) out.push(FmtS(a, b));
@@ -528,6 +530,31 @@ export function f3() {
     ],
     [["A", Ref("HO")], ["B", Ref("HU1")], ["C", Ref("HU2")], ["D", Ref("HU3")], ["E", Ref("HI")], ["F", Ref("HIN")], ["G", Ref("HD")], ["H", Ref("HR")], ["I", Ref("HOpt")], ["J", ArrT(Ref("HU1"))]],
     "declared names shared with Object.prototype",
+  );
+  // a declared property of a structured type next to an index signature that admits the same key with a wider value
+  // type (each key must be projected by its own declaration only)
+  add(
+    [
+      Alias("DI1", ObjT([Prop("meta", ObjT([Prop("id", P("number"))]))], [{ key: P("string"), val: P("unknown") }])),
+      Alias("DI2", ObjT([Prop("meta", ObjT([Prop("id", P("number"))])), Prop("n", P("number"), true)], [{ key: P("string"), val: P("any") }])),
+      Alias("DI3", ObjT([Prop("list", ArrT(ObjT([Prop("id", P("number"))])))], [{ key: P("string"), val: P("unknown") }])),
+      Alias("DI4", ObjT([Prop("pair", Tup([ObjT([Prop("a", P("string"))]), P("number")]))], [{ key: P("string"), val: P("unknown") }])),
+      Alias("DI5", ObjT([Prop("meta", ObjT([Prop("id", P("number"))]))], [{ key: P("string"), val: U(ObjT([Prop("id", P("number")), Prop("extra", P("string"), true)]), P("number")) }])),
+      Alias("DI6", ObjT([Prop("inner", Ref("DI1"))], [{ key: Tpl("x-", H("string")), val: P("unknown") }])),
+    ],
+    [["A", Ref("DI1")], ["B", Ref("DI2")], ["C", Ref("DI3")], ["D", Ref("DI4")], ["E", Ref("DI5")], ["F", Ref("DI6")], ["G", ArrT(Ref("DI1"))]],
+    "declared structured properties next to an admitting index signature",
+  );
+  // recursive named types whose body holds an inline discriminated union with the type itself as a variant, twice
+  add(
+    [
+      Alias("Leaf", ObjT([Prop("kind", L("leaf")), Prop("v", P("number"))])),
+      Alias("Tree", ObjT([Prop("kind", L("node")), Prop("left", U(Ref("Tree"), Ref("Leaf"))), Prop("right", U(Ref("Tree"), Ref("Leaf")))])),
+      Alias("Flop", ObjT([Prop("kind", L("node")), Prop("next", U(Ref("Flop"), Ref("Leaf"))), Prop("self", ArrT(Ref("Flop")))])),
+      Alias("Flip", ObjT([Prop("kind", L("node")), Prop("self", ArrT(Ref("Flip"))), Prop("next", U(Ref("Flip"), Ref("Leaf")))])),
+    ],
+    [["A", Ref("Tree")], ["B", Ref("Flop")], ["C", Ref("Flip")], ["D", U(Ref("Tree"), Ref("Leaf"))]],
+    "recursion through inline discriminated unions",
   );
   // intersections of named objects
   add(
